@@ -118,6 +118,12 @@ def check_gate(body, site, accept, all_units=(), verdict_accepts=False):
                         if src in env0:
                             env0[dst] = env0[src]
                         changed = True
+                # ... and so do tuple temporaries it is moved into: `(result, key)` matched as a whole
+                if st[0] == "=" and not st[1][1] and st[2][0] == "agg" and st[2][1][0] == "tuple" and len(body.defs(st[1][0])) == 1:
+                    for i, op in enumerate(st[2][2]):
+                        if op[0] in ("cp", "mv") and not op[1][1] and op[1][0] in fixed_locals and (st[1][0], (i,)) not in fixed_places:
+                            fixed_places[(st[1][0], (i,))] = fixed_locals[op[1][0]]
+                            changed = True
     ex = Explorer(body, fixed_locals=fixed_locals, fixed_places=fixed_places)
     ex.all_units = all_units
     return ex.explore(site["start"], env0=env0, blocked={site["bb"]}, accept=accept,
